@@ -54,7 +54,10 @@ type basicTaskBase struct {
 }
 
 func (t *basicTaskBase) startBasicTask() (err error) {
-	t.taskCmd, err = prepareTaskCmd(t.Tci)
+	// Work on the command built here and not on the field t.taskCmd from here on:
+	// a Kill() that overlaps this call sets the field to nil at any moment.
+	taskCmd, err := prepareTaskCmd(t.Tci)
+	t.taskCmd = taskCmd
 	if err != nil {
 		msg := "cannot build task command"
 		log.WithField("partition", t.knownEnvironmentId.String()).
@@ -66,7 +69,7 @@ func (t *basicTaskBase) startBasicTask() (err error) {
 			Error(msg)
 		return err
 	}
-	if t.taskCmd == nil {
+	if taskCmd == nil {
 		return errors.New("could not instantiate basic task command")
 	}
 
@@ -139,10 +142,10 @@ func (t *basicTaskBase) startBasicTask() (err error) {
 		stderr = &stderrBuf
 	}
 
-	stdoutIn, _ := t.taskCmd.StdoutPipe()
-	stderrIn, _ := t.taskCmd.StderrPipe()
+	stdoutIn, _ := taskCmd.StdoutPipe()
+	stderrIn, _ := taskCmd.StderrPipe()
 
-	err = t.taskCmd.Start()
+	err = taskCmd.Start()
 
 	if err != nil {
 		log.WithField("partition", t.knownEnvironmentId.String()).
@@ -169,7 +172,6 @@ func (t *basicTaskBase) startBasicTask() (err error) {
 	}()
 
 	go func() {
-		taskCmd := t.taskCmd
 		err = taskCmd.Wait()
 		// ^ when this unblocks, the task is done
 
